@@ -6,8 +6,10 @@ package openapi3filter
 
 import (
 	"context"
+	"io"
 	"net/http"
 	"net/url"
+	"strings"
 
 	"github.com/getkin/kin-openapi/openapi3"
 	"github.com/getkin/kin-openapi/routers"
@@ -282,5 +284,44 @@ func verifH_C10_recursive_param() {
 	// known finding: decodeValue follows the composition back into the same schema without a guard
 	verifKnown("C10-recursive-composition-parameter", true)
 	_ = ValidateParameter(context.Background(), input, param)
+	verifReach("end")
+}
+
+//verif:harness id=C10 tier=quick,thorough witness=end bounds="ValidateResponse with optional parts absent: response declaring no content / text/plain without schema / text/plain with a string schema / application/json with an object schema x Body nil / http.NoBody / one of four texts (empty, a, {}, {) x Content-Type absent / text/plain / application/json x header map nil or not x Options nil or not; assertion = no panic"
+func verifH_C10_response_optional_parts() {
+	d := "d"
+	resp := &openapi3.Response{Description: &d}
+	switch verifChoose("content", 4) {
+	case 1:
+		resp.Content = openapi3.Content{"text/plain": &openapi3.MediaType{}}
+	case 2:
+		resp.Content = openapi3.Content{"text/plain": &openapi3.MediaType{Schema: &openapi3.SchemaRef{Value: &openapi3.Schema{Type: &openapi3.Types{"string"}}}}}
+	case 3:
+		resp.Content = openapi3.Content{"application/json": &openapi3.MediaType{Schema: &openapi3.SchemaRef{Value: &openapi3.Schema{Type: &openapi3.Types{"object"}}}}}
+	}
+	resps := openapi3.NewResponsesWithCapacity(1)
+	resps.Set("200", &openapi3.ResponseRef{Value: resp})
+	op := &openapi3.Operation{Responses: resps}
+	var hdr http.Header
+	switch verifChoose("ct", 4) {
+	case 1:
+		hdr = http.Header{}
+	case 2:
+		hdr = http.Header{"Content-Type": []string{"text/plain"}}
+	case 3:
+		hdr = http.Header{"Content-Type": []string{"application/json"}}
+	}
+	var opts *Options
+	if verifChoose("opts", 2) == 1 {
+		opts = &Options{MultiError: verifNondetBool("multi")}
+	}
+	in := verifRespInput(op, "GET", 200, hdr, nil, opts)
+	switch verifChoose("body", 3) {
+	case 1:
+		in.Body = http.NoBody
+	case 2:
+		in.Body = io.NopCloser(strings.NewReader([]string{"", "a", "{}", "{"}[verifChoose("b", 4)]))
+	}
+	_ = ValidateResponse(context.Background(), in)
 	verifReach("end")
 }
